@@ -61,6 +61,16 @@ def c10 (args : List String) : String :=
     | _, _, _ => "bad-op"
   | _ => "bad-op"
 
+/-! ## c10send: `c10send <hexbody;hexbody;...|-> <caps csv|->` -> the bytes on the wire -/
+open PwVerif.Framing in
+def c10send (args : List String) : String :=
+  match args with
+  | [ms, c] =>
+    match (if ms == "-" then some [] else (ms.splitOn ";").mapM fieldHex), parseNats c with
+    | some msgs, some caps => let w := sendMsgs msgs caps []; if w.isEmpty then "-" else toHex w
+    | _, _ => "bad-op"
+  | _ => "bad-op"
+
 /-! ## c19: `c19 <op> <op> ...` with ops `c1 c0 f<w> r<w> a x`;
 output per `a`/`x`: `<sorted yielded ids>;<registry size after>` joined by `|` -/
 def insertSorted (x : Nat) : List Nat → List Nat
@@ -357,6 +367,7 @@ end StreamIO
 def step (line : String) : String :=
   match (line.trimAscii.toString.splitOn " ").filter (· ≠ "") with
   | "c10" :: args => c10 args
+  | "c10send" :: args => c10send args
   | "c19" :: args => c19 args
   | "frames" :: args => FramesIO.run args
   | "c13mro" :: args => c13mro args
